@@ -354,6 +354,48 @@ def numeric_runs(ctx, sut, fpm, injector):
                     return
 
 
+def huge_int_runs(ctx, sut, fpm, injector):
+    """Threads whose values are REJECTED and involve integers beyond the interpreter's int-to-str limit, in the
+    value or in the schema (under an untyped element, whose rendering in the message is long): whatever the
+    library does to report them, it does it in several threads at once."""
+    rng = ctx.rng
+    huge = 10 ** 5000 + 7
+    element = sut.Element(properties={
+        "n": sut.Property(sut.Integer(maximum=5)),
+        "c": sut.Property(sut.Element(const=huge)),
+        "e": sut.Property(sut.Element(enum=[huge, 1], minimum=0)),
+        "a": sut.Property(sut.AnyOf(sut.Element(const=huge), sut.String())),
+        "x": sut.Property(sut.Not(sut.Element(const=huge))),
+    })
+    pool = [{"n": huge}, {"c": huge + 1}, {"c": huge}, {"e": 7}, {"e": huge}, {"a": huge - 1}, {"a": "s"}, {"x": huge},
+            {"x": 1}, {"n": 3}, {"n": -huge}, {"c": 1, "n": huge}]
+    for _ in range(2):
+        nthreads = rng.choice([4, 8])
+        lists = [[copy.deepcopy(rng.choice(pool)) for _ in range(12)] for _ in range(nthreads)]
+        base = [sequential(sut, fpm, element, lst) for lst in lists]
+        records, errors, stuck = concurrent(sut, fpm, element, lists, injector, 0.15)
+        again = [sequential(sut, fpm, element, lst) for lst in lists]
+        if stuck or errors:
+            ctx.inconclusive_reason("huge-int run: threads stuck or harness error " + str(errors[:1]))
+            return
+        ctx.count("huge_int_runs")
+        if base != again:
+            ctx.witness("sequential_baseline_unstable", {"huge_int_run": True},
+                        "sequential validation of huge integers differs before and after the concurrent phase")
+            return
+        for tid, recs in enumerate(records):
+            for pos, (_s, _e, outcome, fp) in enumerate(recs):
+                ctx.evaluation()
+                ctx.count("huge_int_runs.calls")
+                want = base[tid][pos]
+                if outcome != want[0] or (outcome == "ok" and fp != want[1]):
+                    ctx.witness("concurrent_differs_from_sequential",
+                                {"huge_int_run": True, "threads": nthreads, "keys": sorted(lists[tid][pos])},
+                                f"thread {tid} call {pos} (members {sorted(lists[tid][pos])}, integers of 5000 digits): "
+                                f"concurrent -> {outcome}; alone (main thread) -> {want[0]}")
+                    return
+
+
 def size_runs(ctx, sut, fpm, injector):
     """Values of the sizes at which a library might switch to a guarded, chunked or timed code path (such
     paths tend to rely on facilities only the main thread has: signals, contexts)."""
@@ -432,6 +474,7 @@ def run_shard(ctx):
     try:
         format_runs(ctx, sut, fpm, injector)
         numeric_runs(ctx, sut, fpm, injector)
+        huge_int_runs(ctx, sut, fpm, injector)
         default_runs(ctx, sut, fpm, injector)
         size_runs(ctx, sut, fpm, injector)
         for idx in range(ctx.params["runs"]):
@@ -453,6 +496,10 @@ def replay(case, ctx):
         if case.get("size_run"):
             for _ in range(5):
                 size_runs(ctx, sut, fpm, injector)
+            return
+        if case.get("huge_int_run"):
+            for _ in range(5):
+                huge_int_runs(ctx, sut, fpm, injector)
             return
         if case.get("numeric_run") or case.get("format_run") or case.get("default_run"):
             # these scenarios use fixed elements and pools: run them again (several times)
